@@ -376,9 +376,10 @@ def baseline_paths():
             BASELINE = set(d["paths"]) if isinstance(d, dict) else set(d)
             baseline_paths.adts = d.get("adts", {}) if isinstance(d, dict) else {}
             baseline_paths.mods = d.get("mods", {}) if isinstance(d, dict) else {}
+            baseline_paths.sigs = d.get("sigs", {}) if isinstance(d, dict) else {}
         except OSError:
             BASELINE = set()
-            baseline_paths.adts, baseline_paths.mods = {}, {}
+            baseline_paths.adts, baseline_paths.mods, baseline_paths.sigs = {}, {}, {}
     return BASELINE
 
 
@@ -401,7 +402,8 @@ def baseline_record(raw):
             if p.startswith(m + "::") and "::" not in p[len(m) + 2:] and not p[len(m) + 2:].startswith("<"):
                 kids.add(p[len(m) + 2:])
         mods[m] = sorted(kids)
-    return {"paths": paths, "adts": {a["path"]: {"key": adt_key(a), "fields": [[f["name"] for f in v.get("fields", [])] for v in a.get("variants", [])],
+    sigs = {b["path"]: [len(b.get("inputs") or []), b.get("output")] for b in raw.get("bodies", []) if b.get("impl_trait")}
+    return {"paths": paths, "sigs": sigs, "adts": {a["path"]: {"key": adt_key(a), "fields": [[f["name"] for f in v.get("fields", [])] for v in a.get("variants", [])],
                                                  "variants": [v.get("name") for v in a.get("variants", [])]} for a in raw.get("adts", [])}, "mods": mods}
 
 
@@ -462,6 +464,46 @@ def canonical_rewrites(raw):
         cands = [p1 for p1, rec in badts.items() if p1 not in present and p1.rsplit("::", 1)[0] == c2.rsplit("::", 1)[0] and rec["key"] == adt_key(a2) and rec["key"]]
         if len(cands) == 1:
             rw[p2] = cands[0]
+    # (0c) a crate-private trait that was renamed (and possibly some of its methods): same module, mostly the same methods
+    rxm = re.compile(r"^<(.+) as ((?:crate::)[A-Za-z0-9_:]+)(?:<.*>)?>::([A-Za-z0-9_]+)$")
+
+    def trait_methods(paths):
+        out = {}
+        for p0 in paths:
+            m0 = rxm.match(p0)
+            if m0:
+                out.setdefault(m0.group(2), {}).setdefault(m0.group(3), []).append(p0)
+        return out
+    btm = trait_methods(base)
+    ctm = {}
+    for tpath, meths in trait_methods(cur).items():
+        ctm[canon(tpath)] = (tpath, meths)
+    for ct, (tcur, meths) in ctm.items():
+        if ct in btm:
+            continue
+        best = None
+        for bt, bm in btm.items():
+            if bt in ctm or bt.rsplit("::", 1)[0] != ct.rsplit("::", 1)[0]:
+                continue
+            j = len(set(bm) & set(meths)) / float(len(set(bm) | set(meths)))
+            if j >= 0.5 and (best is None or j > best[0]):
+                best = (j, bt)
+        if not best:
+            continue
+        bt = best[1]
+        rw[tcur] = bt
+        # methods of that trait that changed their name: pair the leftovers by arity / result type
+        left_c = [m0 for m0 in meths if m0 not in btm[bt]]
+        left_b = [m0 for m0 in btm[bt] if m0 not in meths]
+        bsig = getattr(baseline_paths, "sigs", {})
+        csig = {b["path"]: [len(b.get("inputs") or []), b.get("output")] for b in raw.get("bodies", []) if b.get("impl_trait")}
+        for mc in left_c:
+            sc = {tuple(csig.get(p0, [None, None])[:1]) for p0 in meths[mc]}
+            cands = [mb for mb in left_b if {tuple(bsig.get(p0, [None, None])[:1]) for p0 in btm[bt][mb]} == sc]
+            if len(cands) == 1:
+                rw["%s>::%s" % (tcur, mc)] = "%s>::%s" % (bt, cands[0])
+                rw["%s::%s" % (tcur, mc)] = "%s::%s" % (bt, cands[0])
+                left_b.remove(cands[0])
     for r in raw.get("reexports", []):
         a, t = r["alias"], r["target"]
         if t not in base and a in base and t in cur and a not in cur:
@@ -505,6 +547,21 @@ def canonical_rewrites(raw):
     return sorted(rw.items(), key=lambda kv: -len(kv[0]))
 
 
+def _fix_names(x):
+    """after paths were canonicalised: the short name of every callee / body record follows its definition path"""
+    if isinstance(x, dict):
+        d = x.get("res_def") or x.get("def") or (x.get("path") if "mir" in x else None)
+        if isinstance(d, str) and isinstance(x.get("name"), str) and "::" in d and not d.endswith(">"):
+            last = d.rsplit("::", 1)[-1]
+            if last and last[0] != "{" and last != x["name"] and not last.startswith("<"):
+                x["name"] = last
+        for v in x.values():
+            _fix_names(v)
+    elif isinstance(x, list):
+        for v in x:
+            _fix_names(v)
+
+
 class Facts:
     def __init__(self, path):
         with open(path) as f:
@@ -516,6 +573,7 @@ class Facts:
             for old, new in rws:
                 text = re.sub(re.escape(json.dumps(old)[1:-1]) + r"(?![A-Za-z0-9_])", lambda m, n=json.dumps(new)[1:-1]: n, text)
             self.raw = json.loads(text)
+            _fix_names(self.raw)
         self.rewrites = rws
         badts = getattr(baseline_paths, "adts", {}) if baseline_paths() else {}
         for a in self.raw.get("adts", []):
